@@ -337,9 +337,10 @@ def simulate_abortable(aborts: AbortPlan):
 
     orig = GHE.simulate
 
-    def simulate(self, method):
+    def simulate(self, *a, **kw):
+        # signature-agnostic on purpose: a changed repository may add parameters
         aborts.tick("simulate", ctx=self.bhe.b.H)
-        return orig(self, method)
+        return orig(self, *a, **kw)
 
     GHE.simulate = simulate
     try:
